@@ -494,8 +494,20 @@ func c26Gen(rng *rand.Rand, tier string) []Case {
 			all[i].tags = nil
 		}
 	}
+	// small member sets first, so that the first failing case of a class is a small one
 	for _, p := range c26NamePats {
 		add("name", c26HasOp(p), c26FilterOp(mk("a", "ax", "xb", "b"), nil, "", p))
+		add("name", c26HasOp(p), c26FilterOp(mk("foo", "foo-1", "xbar", "bar"), nil, "", p))
+	}
+	small := []c26Member{{name: "n1", status: "alive", tags: [][2]string{{"role", "web"}}}, {name: "n2", status: "left", tags: [][2]string{{"role", "xweb-1"}}},
+		{name: "n3", status: "failed"}, {name: "n4", status: "leaving", tags: [][2]string{{"role", "a"}}}, {name: "n5", status: "alive", tags: [][2]string{{"role", "ax"}}}}
+	for _, p := range c26StatusPats {
+		add("status", c26HasOp(p), c26FilterOp(small, nil, p, ""))
+	}
+	for _, p := range c26TagPats {
+		add("tag", c26HasOp(p), c26FilterOp(small, [][2]string{{"role", p}}, "", ""))
+	}
+	for _, p := range c26NamePats {
 		add("name", c26HasOp(p), c26FilterOp(all, nil, "", p))
 	}
 	for _, p := range c26StatusPats {
